@@ -23,6 +23,7 @@ fn main() {
         "plan" => engines::plan::run(&args, &mut rep),
         "trace" => engines::trace::run(&args, &mut rep),
         "invariance" => engines::invariance::run(&args, &mut rep),
+        "lifecycle" => engines::lifecycle::run(&args, &mut rep),
         "plan-layout" => {
             engines::invariance::print_layout(&args);
             return;
